@@ -568,7 +568,8 @@ impl Adf {
                             ));
                         }
                     }
-                    res
+                    // a path which clashes with the current assignment only rules out itself
+                    Ok::<(), ()>(())
                 });
             log::trace!("results found so far:{}", result.len());
             // checked one alternative, we can now conclude that only the other option may work
